@@ -5,8 +5,9 @@ Import ListNotations.
 
 (** one request: kind id, structural tag of the mutation, whether the tag is one of the shape
     mismatches the property names (must be rejected), model input, observed outcome class, whether
-    the data stored before the request was read back afterwards, and (kind match) the observed result
-    (1 = no match, 2 = match) *)
+    the data stored before the request was read back afterwards, and [matched]: (kind match) the observed
+    result (1 = no match, 2 = match); (Find on a selection below the root, path with a query part) whether
+    the same Find without the query part ended alike - same outcome class, same selection (1 = no, 2 = yes) *)
 Inductive case := Case (kind tag : nat) (must_err : bool) (mi : minput) (o : outcome) (preserved : bool) (matched : nat).
 
 (** the property: a normal result or an error, never a panic / hang / dead process; the shape
@@ -32,6 +33,11 @@ Definition model_of (mi : minput) (o : outcome) (matched : nat) : option bool :=
   match mi with
   | MNone => None
   | MPath w p => agrees (find_path false w p) o
+  | MRel w names row p =>
+      match agrees (find_rel false w names row p) o with
+      | Some b => Some (b && query_law p matched)
+      | None => None
+      end
   | MJson w d => agrees (read_doc false w d) o
   | MMatch segs bl cand =>
       match path_matches false segs bl cand, o with
@@ -42,11 +48,18 @@ Definition model_of (mi : minput) (o : outcome) (matched : nat) : option bool :=
   | MXPath t => agrees (xpath_parse false t) o
   end.
 
+(** Find with a query that names no known parameter returns what Find returns without the query *)
+Definition law_ok (mi : minput) (matched : nat) : bool :=
+  match mi with
+  | MRel _ _ _ p => query_law p matched
+  | _ => true
+  end.
+
 (** search-only requests (no model input, or outside the modelled domain) are judged by the spec alone *)
 Definition classify (c : case) : verdict :=
   match c with
   | Case kind tag must_err mi o preserved matched =>
-      let spec := spec_ok must_err o preserved in
+      let spec := spec_ok must_err o preserved && law_ok mi matched in
       let corr := match model_of mi o matched with Some b => b | None => spec end in
       classify_gen corr spec None
   end.
